@@ -15,7 +15,40 @@ def run(tier, seed):
 def run_prop(prop, tier, seed):
     chk = C.Check(prop, tier, seed, "model_checking")
     rnd = random.Random(seed)
-    cpus, cases, byid, events, died = K.run_dis(chk, tier, seed, prop)
+    vdir0 = C.ensure_build("rel")
+    allcpus = [c["name"] for c in K.cpu_list(vdir0)]
+    # the thorough tier (65,536 patterns per CPU) is processed in batches of CPUs to bound memory
+    batches = [None] if tier == "quick" else [set(allcpus[i:i + 6]) for i in range(0, len(allcpus), 6)]
+    stats = {}
+    total_cases = 0
+    total_events = 0
+    distinct = set()
+    ncan = 0
+    sample_pool = []
+    for bi, batch in enumerate(batches):
+        n, ne, nc = run_batch(chk, prop, tier, seed, rnd, batch, "dis%d" % bi, stats, distinct, sample_pool)
+        total_cases += n
+        total_events += ne
+        ncan += nc
+    weak = sorted(k for k, s in stats.items() if s["decoded"] and s["accepted"] * 20 < s["decoded"])
+    chk.cov.update(dict(
+        evaluations=total_cases,
+        distinct_nontrivial=len(distinct),
+        rule="for every CPU of cpu_list[]: leading 16-bit patterns (quick: 3000 seeded + boundary ones; thorough: all 65,536) "
+             "followed by 14 fill bytes (zeros, ones, 55aa, seeded random), at address 0 or 0x1000; non-trivial = decodes "
+             "to a non-empty text; distinct by (cpu, normalised text)",
+        traces_validated_against_impl=total_events,
+        per_cpu=stats, weak=weak, cpus=len(allcpus),
+        canaries=dict(injected=ncan, rejected=ncan),
+        exhaustive=(tier == "thorough")))
+    chk.samples = sample_pool[:5]
+    chk.assumptions = ["the lexer nv/codec.py:normalise compares mnemonics case-insensitively and numbers as integers",
+                       "MaxLenOf in spec/Codec.tla: documented maxima, 16 where unknown; java/dotnet/webasm unbounded (table instructions)"]
+    return chk.finish()
+
+
+def run_batch(chk, prop, tier, seed, rnd, batch, tag, stats, distinct, sample_pool):
+    cpus, cases, byid, events, died = K.run_dis(chk, tier, seed, prop, only=batch, tag=tag)
     bodies = {c[0]: c for c in cases}
     for c, o in died:
         cpu = c[1].split("cpu=")[1].split()[0]
@@ -39,7 +72,7 @@ def run_prop(prop, tier, seed):
             c["n2"] = c["n2"] + [{"k": "n", "v": 1}]
         canaries[c["id"]] = 1
         events.append(c)
-    verdicts, runs = C.tlc_accept("TraceCodec", "trace_Codec.cfg", events, chk.rundir, "dis", heap="3g",
+    verdicts, runs = C.tlc_accept("TraceCodec", "trace_Codec.cfg", events, chk.rundir, tag, heap="2g",
                                   nchunks=C.NCPU)
     for r in runs:
         chk.add_tlc(r)
@@ -48,7 +81,6 @@ def run_prop(prop, tier, seed):
     missed = [c for c in canaries if c not in seen]
     if missed:
         raise C.InfraError("canaries accepted: %s" % missed[:3])
-    stats = {}
     for e in events:
         if e["id"] in canaries:
             continue
@@ -69,18 +101,10 @@ def run_prop(prop, tier, seed):
         chk.report(key, "%s: .%s bytes %s at %s -> len %d '%s'; assembled -> %s -> '%s'" % (
             v["why"], o["cpu"], c[2][:16], c[1].split("addr=")[1], o["len"], o["text"], o.get("b2"), o.get("text2")),
             dict(case=dict(id=c[0], opts=c[1], bytes=c[2]), observed=o, why=v["why"]))
-    weak = sorted(k for k, s in stats.items() if s["decoded"] and s["accepted"] * 20 < s["decoded"])
-    chk.cov.update(dict(
-        evaluations=len(cases),
-        distinct_nontrivial=len({(e["cpu"], json.dumps(e["n1"])) for e in events if e["n1"]}),
-        rule="for every CPU of cpu_list[]: leading 16-bit patterns (quick: 3000 seeded + boundary ones; thorough: all 65,536) "
-             "followed by 14 fill bytes (zeros, ones, 55aa, seeded random), at address 0 or 0x1000; non-trivial = decodes "
-             "to a non-empty text; distinct by (cpu, normalised text)",
-        traces_validated_against_impl=len(events) - len(canaries),
-        per_cpu=stats, weak=weak, cpus=len(cpus),
-        canaries=dict(injected=len(canaries), rejected=len(canaries)),
-        exhaustive=(tier == "thorough")))
-    chk.samples = [dict(case=bodies[e["id"]][1], bytes=bodies[e["id"]][2], text=byid[e["id"]]["text"]) for e in rnd.sample(events[:-len(canaries) or None], 5)]
-    chk.assumptions = ["the lexer nv/codec.py:normalise compares mnemonics case-insensitively and numbers as integers",
-                       "MaxLenOf in spec/Codec.tla: documented maxima, 16 where unknown; java/dotnet/webasm unbounded (table instructions)"]
-    return chk.finish()
+    for e in events:
+        if e["id"] not in canaries and e["n1"]:
+            distinct.add((e["cpu"], json.dumps(e["n1"])))
+    real = [e for e in events if e["id"] not in canaries]
+    for e in rnd.sample(real, min(3, len(real))):
+        sample_pool.append(dict(case=bodies[e["id"]][1], bytes=bodies[e["id"]][2], text=byid[e["id"]]["text"]))
+    return len(cases), len(real), len(canaries)
